@@ -343,6 +343,54 @@ def cli_edge_scenarios(run):
             run.fail("item-value", "--item-value %s (no such item): %s, expected a configuration error" % (key, outcome(r)), dict(potable_file=base, command_line=["--item-value", key]))
 
 
+    # (d) placeholders whose resolution the edits change: a variable defined only by an addition, a variable overridden, a variable removed while it is still used,
+    #     a value overridden with one that names an undefined variable - each must behave as the file edited by hand does (bytes, or configuration error), on the
+    #     command line and through ConfigParser(overrides=, additional=)
+    undefined = base.replace("as.buck ${A} 0.3 1.0", "as.buck ${A} 0.3 ${C}")
+    ph = [
+        (undefined, ["-a", "Variables:C=2.0"], undefined.replace("A : 1000.0\n", "A : 1000.0\nC : 2.0\n")),
+        (undefined, ["-a", "Variables:C=2.0", "-e", "Variables:A=500.0"], undefined.replace("A : 1000.0\n", "A : 500.0\nC : 2.0\n")),
+        (base, ["-e", "Variables:A=250.0"], base.replace("A : 1000.0", "A : 250.0")),
+        (base, ["-r", "Variables:A"], base.replace("A : 1000.0\n", "")),
+        (base, ["-e", "Pair:Si-O=as.buck ${Z} 0.3 1.0"], base.replace("as.buck ${A} 0.3 1.0", "as.buck ${Z} 0.3 1.0")),
+        (base, ["-a", "Pair:O-O=as.buck ${A} 0.3 ${Z}"], base.replace("as.buck ${A} 0.3 1.0\n", "as.buck ${A} 0.3 1.0\nO-O : as.buck ${A} 0.3 ${Z}\n")),
+        (base, ["-a", "Variables:Z=3.0", "-a", "Pair:O-O=as.buck ${A} 0.3 ${Z}"], base.replace("A : 1000.0\n", "A : 1000.0\nZ : 3.0\n").replace("as.buck ${A} 0.3 1.0\n", "as.buck ${A} 0.3 1.0\nO-O : as.buck ${A} 0.3 ${Z}\n")),
+    ]
+    for text, args, hand in ph:
+        r1, r2 = impl.potable_cli(text, args=args), impl.potable_cli(hand)
+        run.case(key=("cli-edge", "placeholders", str(args)), kind="cli-edge/placeholders")
+        run.traces += 1
+        if outcome(r1) != outcome(r2) or (outcome(r1) == "ok" and r1["output"] != r2["output"]):
+            run.fail("override-placeholders", "potable %s on a file with placeholders: %s%s; the file edited by hand: %s" % (
+                args, outcome(r1), "" if outcome(r1) != "ok" else ", %s bytes" % len(r1["output"] or ""), outcome(r2) + ("" if outcome(r2) != "ok" else ", %s bytes" % len(r2["output"] or ""))),
+                dict(potable_file=text, command_line=args, hand_edited_file=hand))
+        # the same through the API
+        ovs, ads = [], []
+        it = iter(args)
+        for o in it:
+            item = next(it)
+            if o == "-r":
+                sk = item.rsplit(":", 1)
+                ovs.append(T(sk[0], sk[1], None))
+            else:
+                k, v = item.split("=", 1)
+                sk = k.rsplit(":", 1)
+                (ovs if o == "-e" else ads).append(T(sk[0], sk[1], v))
+
+        def api(t, **kw):
+            try:
+                ConfigParser(io.StringIO(t), **kw)
+                return "ok"
+            except ConfigurationException:
+                return "config_error"
+            except Exception as e:
+                return "internal: %s" % type(e).__name__
+        a1, a2 = api(text, overrides=ovs, additional=ads), api(hand)
+        if a1 != a2:
+            run.fail("override-placeholders", "ConfigParser(overrides=%s, additional=%s) on a file with placeholders: %s; the file edited by hand: %s" % (
+                [tuple(x) for x in ovs], [tuple(x) for x in ads], a1, a2), dict(potable_file=text, operations=args, hand_edited_file=hand))
+
+
 def replay(run, payload):
     print("replay:", payload.get("case"))
     return 2
